@@ -49,10 +49,18 @@ var corruptMasks = []int{0x01, 0x80, -2, -3, 0x20} // xor 1, xor 0x80, set 0x00,
 type corruption struct {
 	File string
 	Off  int
-	Mask int // index into corruptMasks, or -1 = truncate to Off bytes
+	Mask int // index into corruptMasks, -1 = truncate to Off bytes, -2 = seeded multi-byte garbage (Off = variant)
+	Gar  []int
 }
 
 func applyCorruption(data []byte, c corruption) []byte {
+	if c.Mask == -2 {
+		out := append([]byte{}, data...)
+		for i := 0; i+1 < len(c.Gar); i += 2 {
+			out[c.Gar[i]%len(out)] = byte(c.Gar[i+1])
+		}
+		return out
+	}
 	if c.Mask < 0 {
 		return append([]byte{}, data[:c.Off]...)
 	}
@@ -319,10 +327,20 @@ func c15Exec(scAny any, c *simcheck.Ctx) *simcheck.Violation {
 		for off := start; off < len(data); off += stride {
 			for m := range corruptMasks {
 				if off%len(corruptMasks) == m || c.Tier == "thorough" || len(data) <= 120 {
-					list = append(list, corruption{f, off, m})
+					list = append(list, corruption{File: f, Off: off, Mask: m})
 				}
 			}
-			list = append(list, corruption{f, off, -1})
+			list = append(list, corruption{File: f, Off: off, Mask: -1})
+		}
+		if len(data) > 4 {
+			gt := c.Tapes.Get("record-garbage")
+			for k := 0; k < 6; k++ {
+				var g []int
+				for j := 0; j < 2+gt.Intn(5); j++ {
+					g = append(g, gt.Intn(len(data)), gt.Intn(256))
+				}
+				list = append(list, corruption{File: f, Off: k, Mask: -2, Gar: g})
+			}
 		}
 	}
 	snap, err := h.snapshot()
@@ -349,8 +367,10 @@ func c15Exec(scAny any, c *simcheck.Ctx) *simcheck.Violation {
 			return simcheck.V(simcheck.EngineError, "write: %v", err)
 		}
 		kind := "record_byte_flip"
-		if cr.Mask < 0 {
+		if cr.Mask == -1 {
 			kind = "record_truncation"
+		} else if cr.Mask == -2 {
+			kind = "record_multi_byte_garbage"
 		}
 		c.St.Faults[kind]++
 		what := fmt.Sprintf("record %s corrupted (%s at offset %d)", cr.File, kind, cr.Off)
